@@ -314,9 +314,8 @@ func (m *mon) runMode() {
 	vrt.Parallel(cases, func(ci int) {
 		r := c.RNG("mode", ci)
 		n := genN(r, 1)
-		class := pickStr(r, clsTies, clsTies, clsConst, clsCont)
+		class, wk := cross(ci, []string{clsTies, clsTies, clsRuns, clsConst, clsCont}, kinds)
 		x := genData(r, class, n)
-		wk := kinds[ci%len(kinds)]
 		w := genWeights(r, wk, n)
 		replay := func() any { return replayCase{"func": "Mode", "x": x, "weights": w} }
 		exactTot := func(x, w []float64) (map[float64]bf, bf) {
@@ -369,6 +368,12 @@ func (m *mon) runMode() {
 			if m.try("Mode", class, replay, func() { _, c2 = stat.Mode(permute(p, x), permute(p, w)) }) {
 				c.Eval("Mode|permutation|"+wk+"|"+class, true)
 				m.rel("Mode.count", class, "permutation-dependent", cnt, c2, 2*unit, replay)
+			}
+		}
+		if wk == wNil {
+			if m.try("Mode", class, replay, func() { _, c2 = stat.Mode(cp(x), ones(n)) }) {
+				c.Eval("Mode|nil-vs-ones|"+class, true)
+				m.rel("Mode.count", class, "ones-weights != nil-weights", cnt, c2, 2*unit, replay)
 			}
 		}
 		if wk == wOnes {
